@@ -1,1 +1,209 @@
-/-! C13 - property theorems (declared with their full name `C13.<name>`; helper lemmas go to Lemmas/) -/
+import CohdlVerif.Lemmas.C13Hist
+import CohdlVerif.Lemmas.C13Views
+import Mathlib.Tactic.Tauto
+/-!
+  C13 - property theorems.  Part A: for EVERY history of requests (any order, repeated, interleaved, rejected
+  ones in between) the lazily built class table is canonical and carries exactly the documented lattice.
+  Part B: every view derived from a root by slices / indices / casts / iteration aliases exactly the cells
+  its ref-spec denotes, keeps root and qualifier, and nested ref-specs compose to absolute positions.
+  Helper lemmas: Lemmas/C13Types.lean, Lemmas/C13Hist.lean, Lemmas/C13Views.lean.
+-/
+open CohdlVerif.C13
+
+/-! ## Part A -/
+
+/-- CANONICAL.  In every history two requests (anywhere, in any order, with anything in between) return the same
+    class object iff they have the same parameters. -/
+theorem C13.canonical (h : List Key) (n m : Nat) (k1 k2 : Key) (i j : Nat)
+    (hn : h[n]? = some k1) (hm : h[m]? = some k2)
+    (rn : (runHist initSt h).2[n]? = some (some i)) (rm : (runHist initSt h).2[m]? = some (some j)) :
+    i = j ↔ k1 = k2 := by
+  obtain ⟨_, _, hf⟩ := hist_final h
+  have h1 := hf n k1 i hn rn
+  have h2 := hf m k2 j hm rm
+  constructor
+  · intro e; subst e; exact find_inj _ k1 k2 i h1 h2
+  · intro e; subst e; rw [h1] at h2; simpa using h2
+
+example : (runHist initSt [.q .port (some .input) (.vec .uns .downto 3), .vec .uns .upto 8,
+    .q .port (some .input) (.vec .uns .downto 3)]).2 = [some 26, some 28, some 26] := by decide
+
+/-- `issubclass` between any two requested classes of any history is decided by the parameter tuples alone:
+    it is membership in the key level closure of `baseKeys`, whatever was created before, between or after. -/
+theorem C13.issubclass_history_independent (h : List Key) (n m : Nat) (k1 k2 : Key) (i j : Nat)
+    (hn : h[n]? = some k1) (hm : h[m]? = some k2)
+    (rn : (runHist initSt h).2[n]? = some (some i)) (rm : (runHist initSt h).2[m]? = some (some j)) :
+    issub (runHist initSt h).1 i j = true ↔ k2 ∈ anc (rank k1) k1 := by
+  obtain ⟨hI, hlen, hf⟩ := hist_final h
+  exact issub_iff _ hI hlen k1 k2 i j (hf n k1 i hn rn) (hf m k2 j hm rm)
+
+/-- LATTICE.  `Q[K[o,w]]` is a subclass of `Q[BitVector[w]]`, `Q[K]` and `Q[BitVector]` (same qualifier kind and
+    direction), for every vector kind, width, order, qualifier and every history. -/
+theorem C13.lattice (h : List Key) (n m : Nat) (i j : Nat) (qk : QKind) (d : Option Dir) (k : VKind) (o : Order)
+    (w : Nat) (tgt : Key)
+    (htgt : tgt = .q qk d (.vec .bv .downto w) ∧ k ≠ .bv ∨ tgt = .q qk d (.root (kroot k)) ∨ tgt = .q qk d (.root .bitvector))
+    (hn : h[n]? = some (.q qk d (.vec k o w))) (hm : h[m]? = some tgt)
+    (rn : (runHist initSt h).2[n]? = some (some i)) (rm : (runHist initSt h).2[m]? = some (some j)) :
+    issub (runHist initSt h).1 i j = true := by
+  rw [C13.issubclass_history_independent h n m _ _ i j hn hm rn rm]
+  rcases htgt with ⟨rfl, hk⟩ | rfl | rfl
+  · cases qk <;> cases k <;> simp [rank, anc, baseKeys, qParent, kroot, qroot, rootBases] at hk ⊢
+  · cases qk <;> cases k <;> simp [rank, anc, baseKeys, qParent, kroot, qroot, rootBases]
+  · cases qk <;> cases k <;> simp [rank, anc, baseKeys, qParent, kroot, qroot, rootBases]
+
+/-- every port type is a signal type of the same wrapped type (any wrapped type, any direction) -/
+theorem C13.port_is_signal (h : List Key) (n m : Nat) (i j : Nat) (d : Option Dir) (t : Key)
+    (hn : h[n]? = some (.q .port d t)) (hm : h[m]? = some (.q .signal none t))
+    (rn : (runHist initSt h).2[n]? = some (some i)) (rm : (runHist initSt h).2[m]? = some (some j)) :
+    issub (runHist initSt h).1 i j = true := by
+  rw [C13.issubclass_history_independent h n m _ _ i j hn hm rn rm]
+  exact base_mem_anc _ _ (by simp [baseKeys])
+
+example : (let r := runHist initSt [.q .signal none (.vec .bv .downto 3), .q .port (some .output) (.vec .sgn .upto 3)]
+    match r.2 with
+    | [some a, some b] => issub r.1 b a && !issub r.1 a b
+    | _ => false) = true := by decide
+
+set_option maxHeartbeats 1000000 in
+/-- NO SPURIOUS SUBCLASS.  Between two qualified vector types `issubclass` holds exactly in the documented
+    cases (`qvecLe`): same qualifier (or port -> signal), same width, and same kind and order or the
+    `BitVector[w]` of an Unsigned/Signed.  Different widths, kinds, qualifiers or directions are never related,
+    in any history. -/
+theorem C13.no_spurious_subclass (h : List Key) (n m : Nat) (i j : Nat)
+    (q1 : QKind) (d1 : Option Dir) (k1 : VKind) (o1 : Order) (w1 : Nat)
+    (q2 : QKind) (d2 : Option Dir) (k2 : VKind) (o2 : Order) (w2 : Nat)
+    (hn : h[n]? = some (.q q1 d1 (.vec k1 o1 w1))) (hm : h[m]? = some (.q q2 d2 (.vec k2 o2 w2)))
+    (rn : (runHist initSt h).2[n]? = some (some i)) (rm : (runHist initSt h).2[m]? = some (some j)) :
+    issub (runHist initSt h).1 i j = true ↔ qvecLe q1 d1 k1 o1 w1 q2 d2 k2 o2 w2 := by
+  rw [C13.issubclass_history_independent h n m _ _ i j hn hm rn rm]
+  unfold qvecLe
+  cases q1 <;> cases k1 <;> cases q2 <;> cases k2 <;>
+    simp [rank, anc, baseKeys, qParent, kroot, qroot, rootBases] <;> try tauto
+
+/-- the same for the unqualified vector types -/
+theorem C13.no_spurious_subclass_prim (h : List Key) (n m : Nat) (i j : Nat)
+    (k1 : VKind) (o1 : Order) (w1 : Nat) (k2 : VKind) (o2 : Order) (w2 : Nat)
+    (hn : h[n]? = some (.vec k1 o1 w1)) (hm : h[m]? = some (.vec k2 o2 w2))
+    (rn : (runHist initSt h).2[n]? = some (some i)) (rm : (runHist initSt h).2[m]? = some (some j)) :
+    issub (runHist initSt h).1 i j = true ↔
+      w2 = w1 ∧ ((k2 = k1 ∧ o2 = o1) ∨ (k1 ≠ .bv ∧ k2 = .bv ∧ o2 = .downto)) := by
+  rw [C13.issubclass_history_independent h n m _ _ i j hn hm rn rm]
+  cases k1 <;> simp [rank, anc, baseKeys, rootBases] <;> tauto
+
+/-- observation (mirrors the code, not claimed by the property text): an UPTO `Unsigned[0:w-1]` derives from the
+    DOWNTO `BitVector[w-1:0]`, not from `BitVector[0:w-1]` -/
+theorem C13.upto_vector_base_is_downto (w : Nat) :
+    Key.vec .bv .downto w ∈ anc (rank (.vec .uns .upto w)) (.vec .uns .upto w) ∧
+    Key.vec .bv .upto w ∉ anc (rank (.vec .uns .upto w)) (.vec .uns .upto w) := by
+  simp [rank, anc, baseKeys, rootBases]
+
+/-- CREATION NEVER FAILS (lookup / recursion part).  Every legal request of every history returns a class: the
+    recursion through the bases terminates within the bound and never hits an inconsistent table.
+    (That `type(name, bases, {})` itself cannot fail on an inconsistent MRO is `C13.mro_exists_partial` below.) -/
+theorem C13.creation_never_fails (h : List Key) (n : Nat) (k : Key) (hn : h[n]? = some k) (hl : legal k = true) :
+    ∃ i, (runHist initSt h).2[n]? = some (some i) :=
+  runHist_legal h initSt inv_init init_roots n k hn hl
+
+example : legal (.q .port (some .inout) (.arr (.arr (.vec .sgn .upto 65) 0) 3)) = true := by decide
+
+namespace CohdlVerif.C13
+/-- every shape of lazily created class (all qualifier kinds and directions x vector kinds x both orders,
+    unparametrised kinds, Bit, arrays) with two different widths each -/
+def shapeHist : List Key :=
+  ([QKind.signal, .variable, .temporary].map (fun qk => (qk, (none : Option Dir))) ++
+   [Dir.input, .output, .inout].map (fun d => (QKind.port, some d))).flatMap (fun (qk, d) =>
+    [VKind.bv, .uns, .sgn].flatMap (fun k =>
+      [Key.q qk d (.vec k .downto 1), .q qk d (.vec k .upto 1), .q qk d (.vec k .downto 3), .q qk d (.root (kroot k))]) ++
+    [.q qk d (.root .bit), .q qk d (.arr (.vec .uns .downto 3) 2), .q qk d (.arr (.arr (.root .bit) 1) 2)])
+end CohdlVerif.C13
+
+/-- PARTIAL (finite check, NOT the full statement).  Full statement: for every history the C3 linearisation of
+    every class of the table exists (`(mroTable st).all isSome`), i.e. `type.__new__` never raises "Cannot create a
+    consistent method resolution order".  Proved here only for the table that contains every SHAPE of class with
+    two widths; missing: the lemma that C3 commutes with the injective renaming width -> width (the base graph of
+    a key does not depend on the numeric value of the width).  The correspondence check compares `__mro__` with
+    `mroTable` on every generated history (widths up to 66). -/
+theorem C13.mro_exists_partial :
+    (mroTable (runHist initSt shapeHist).1).all Option.isSome = true := by decide +kernel
+
+/-! ## Part B -/
+
+/-- VIEWS ALIAS THE ROOT.  For every view `v` obtained from a root object of width `W` by any chain of
+    slices / indices / casts / iteration: its cells are distinct positions inside the root; a write of `vals` through
+    the view changes exactly those cells (to `vals`, in order) and nothing else; a read through the view sees the
+    root's cells. -/
+theorem C13.view_aliases {α : Type} (id : Nat) (q : Qual) (vt : VT) (W : Nat) (hvt : vt ≠ .bit)
+    (ops : List Op) (v : View) (hv : applyOps (rootView id q vt W) ops = some v)
+    (s vals : List α) (hs : s.length = W) (hl : v.cells.length = vals.length) :
+    v.cells.Nodup ∧ (∀ c ∈ v.cells, c < W) ∧
+    (write s v.cells vals).length = W ∧
+    (∀ i, i ∉ v.cells → (write s v.cells vals)[i]? = s[i]?) ∧
+    CohdlVerif.C13.read (write s v.cells vals) v.cells = vals.map some ∧
+    CohdlVerif.C13.read s v.cells = v.cells.map (s[·]?) := by
+  have hok := applyOps_ok W ops _ v (rootView_ok id q vt W hvt) hv
+  obtain ⟨hnd, hlt⟩ := cells_of_ok W v hok
+  refine ⟨hnd, hlt, by rw [write_length, hs], fun i hi => write_get_not_mem _ _ _ i hi, ?_, rfl⟩
+  apply List.ext_getElem?
+  intro j
+  simp only [CohdlVerif.C13.read, List.getElem?_map]
+  by_cases hj : j < v.cells.length
+  · have := write_get_mem v.cells s vals hnd hl (fun c hc => hs ▸ hlt c hc) j hj
+    simp only [List.getElem?_eq_getElem hj, Option.map_some, this]
+    rw [List.getElem?_eq_getElem (hl ▸ hj)]; rfl
+  · have h1 : v.cells[j]? = none := List.getElem?_eq_none (by omega)
+    have h2 : vals[j]? = none := List.getElem?_eq_none (by omega)
+    simp [h1, h2]
+
+/-- a second view of the same root sees the write exactly on the shared cells -/
+theorem C13.view_aliases_other {α : Type} (cells1 cells2 : List Nat) (s vals : List α)
+    (hd : ∀ c ∈ cells2, c ∉ cells1) :
+    CohdlVerif.C13.read (write s cells1 vals) cells2 = CohdlVerif.C13.read s cells2 := by
+  simp only [CohdlVerif.C13.read]
+  apply List.map_congr_left
+  intro c hc
+  exact write_get_not_mem _ _ _ c (hd c hc)
+
+example : (applyOps (rootView 0 .signal .bv 8) [.slice 7 2, .slice 3 1, .unsigned]).map (·.cells) = some [3, 4, 5] := by decide
+example : write [0, 0, 0, 0, 0, 0, 0, 0] [3, 4, 5] [1, 2, 3] = [0, 0, 0, 1, 2, 3, 0, 0] := by decide
+
+/-- ROOT AND QUALIFIER ARE KEPT by every chain of view operations. -/
+theorem C13.root_and_qualifier_kept (r : View) (ops : List Op) (v : View) (hv : applyOps r ops = some v) :
+    v.root = r.root ∧ v.qual = r.qual :=
+  applyOps_root_qual ops r v hv
+
+/-- REF-SPECS COMPOSE.  (1) The name the back end prints for a derived view (last ref-spec after
+    `Offset/Slice.simplify`) denotes exactly the cells the view aliases, for every chain of operations.
+    (2) Associativity: a slice of a slice (at any position of a chain) is the single slice with the offsets added:
+    same cells, same printed name. -/
+theorem C13.refspec_compose (id : Nat) (q : Qual) (vt : VT) (W : Nat) (hvt : vt ≠ .bit) :
+    (∀ (ops : List Op) (v : View), applyOps (rootView id q vt W) ops = some v → resolve W v = v.cells) ∧
+    (∀ (ops : List Op) (h1 l1 h2 l2 : Nat) (v : View),
+      applyOps (rootView id q vt W) (ops ++ [.slice h1 l1, .slice h2 l2]) = some v →
+      ∃ v', applyOps (rootView id q vt W) (ops ++ [.slice (h2 + l1) (l2 + l1)]) = some v' ∧
+        v'.cells = v.cells ∧ resolve W v' = resolve W v ∧ v'.vt = v.vt ∧ v'.root = v.root ∧ v'.qual = v.qual) := by
+  have hroot := rootView_ok id q vt W hvt
+  refine ⟨fun ops v hv => resolve_of_ok W v (applyOps_ok W ops _ v hroot hv), ?_⟩
+  intro ops h1 l1 h2 l2 v hv
+  rw [applyOps_append] at hv
+  cases hu : applyOps (rootView id q vt W) ops with
+  | none => simp [hu] at hv
+  | some u =>
+    have huok := applyOps_ok W ops _ u hroot hu
+    have hvorig := hv
+    simp only [hu, Option.bind_some, applyOps] at hv
+    obtain ⟨v', hr, hcells, hvt', hroot', hqual'⟩ := slice_slice u v h1 l1 h2 l2 hv
+    have hok' : RefOK W v' := applyOp_ok W u v' _ huok hr
+    have hok : RefOK W v := applyOps_ok W _ _ v hroot (by rw [applyOps_append]; exact hvorig)
+    refine ⟨v', ?_, hcells, ?_, hvt', hroot', hqual'⟩
+    · rw [applyOps_append, hu]; simp only [Option.bind_some, applyOps, hr]
+    · rw [resolve_of_ok W v' hok', resolve_of_ok W v hok, hcells]
+
+example : (applyOps (rootView 0 (.port 1) .uns 8) [.slice 7 2, .slice 3 1, .index 1]).map (resolve 8) = some [4] := by decide
+
+/-- GENUINE DEFECT of the current tree (fixes/C13-iter-nested-slice.patch): `TypeQualifier.__iter__` as it is
+    (`iterCurrent`) drops the base offset of a nested slice: the first element of `x[1:1][0:0]` is cell 1 of
+    the root, but its ref-spec resolves to cell 0. -/
+theorem C13.iter_refspec_fails_at :
+    ∃ v e, applyOps (rootView 0 .signal .bv 2) [.slice 1 1, .slice 0 0] = some v ∧ iterCurrent v 0 = some e ∧
+      e.cells = [1] ∧ resolve 2 e = [0] := by
+  refine ⟨_, _, rfl, rfl, ?_, ?_⟩ <;> decide
